@@ -16,6 +16,9 @@ int main(int argc, char** argv) {
     const int tcounts[] = {2, 4, 8};
     for (const auto& kv : dz::kinds()) {
         if (!only.empty() && only != kv.first) continue;
+        // RNSsystem<…> keeps its moduli and every residue vector in Array0, i.e. in the process-wide free lists that the property
+        // excludes by name (documented global, not synchronised): no concurrent use of it is claimed
+        if (kv.first.compare(0, 10, "RNSsystem_") == 0) continue;
         dz::enter_kind(kv.first);
         for (int p = 0; p < 2; ++p) {
             // the sequential digest comes from a separate object with the same parameters; the shared object of each round is FRESH:
